@@ -3,18 +3,20 @@
     the implementation call for call (Outputter events).
 
     Proved here, for every codec tree of the fragment [walk_ok] - structs
-    nested to any depth, pointers, packed and counted slices, and the scalar
-    leaves bool / int / uint / 64-bit flat int / float32 / float64 / string /
-    bytes / time - and every well-typed value: walking Marshal's output with the
+    nested to any depth, pointers, null.* types, packed and counted slices,
+    maps (string-keyed: an object; other keys: a list of key / value objects;
+    omitted entry members supplied as the walker does), JSON-any objects and
+    arrays (C16), and the scalar leaves
+    bool / int / uint / 64-bit flat int / float32 / float64 / string / bytes /
+    time - and every well-typed value: walking Marshal's output with the
     type's Descriptor consumes it exactly and emits precisely the Outputter calls
     of the value ([vev]); fed to a new JSON outputter these calls render the
     value's image in the JSON data model ([vtree]: structs as objects keyed by
     field name with omitted fields absent, slices as arrays element for element
-    - empty elements included -, pointers as their target).  PARTIAL: maps,
-    the null.* wrappers, narrow `flat` integers (finding D17d), the protobuf
+    - empty elements included -, pointers as their target; this rendering
+    theorem is for map-free types).  PARTIAL: narrow `flat` integers (finding D17d), the protobuf
     forms (findings D29 / D31) and the restored-descriptor variants are decided
-    by the correspondence and the native comparison only; JSON-any values are
-    covered by C16's theorems.  How numbers, booleans and times are printed is
+    by the correspondence and the native comparison only.  How numbers, booleans and times are printed is
     strconv's / time's business ([tok]). *)
 From Plenc Require Import Base Varint Wire JsonAny Codec SizeProofs RoundTripBase RoundTrip
   Descriptor DescProofs Output JsonWalk WalkProofs.
@@ -31,14 +33,14 @@ Proof. exact walk_enc. Qed.
 Print Assumptions C13_walk_partial.
 
 (** the emitted calls are those of the value's JSON-data-model image *)
-Theorem C13_calls_are_image_partial : forall (tok : ev -> bytes) c, walk_ok c -> forall v, wfv c v ->
+Theorem C13_calls_are_image_partial : forall (tok : ev -> bytes) c, walk_ok c -> nomaps c = true -> forall v, wfv c v ->
   map (oop_of tok) (vev c v) = ops_of (vtree tok c v).
 Proof. exact vev_ops. Qed.
 Print Assumptions C13_calls_are_image_partial.
 
 (** end to end for a struct type *)
 Theorem C13_struct_renders_partial : forall (tok : ev -> bytes) nm n fs vs d,
-  walk_ok (CStruct nm n fs) -> descriptor_of (CStruct nm n fs) = Ok d ->
+  walk_ok (CStruct nm n fs) -> nomaps (CStruct nm n fs) = true -> descriptor_of (CStruct nm n fs) = Ok d ->
   wfv (CStruct nm n fs) (VStruct vs) -> fits (CStruct nm n fs) (VStruct vs) -> wkv (CStruct nm n fs) (VStruct vs) ->
   let data := enc (CStruct nm n fs) (VStruct vs) [] in
   let w := walk d data in
@@ -58,20 +60,43 @@ Print Assumptions C13_root_attributes_ignored.
 (** non-vacuity: a composite codec of the fragment with a value meeting every
     hypothesis, and its walk evaluated in the model *)
 Example C13_ex :
-  let c := CStruct [] 3 [mkfld 0 1 [65] (CInt 64); mkfld 1 2 [66] (CSliceLen CString);
-                         mkfld 2 3 [67] (CPtr (CStruct [] 1 [mkfld 0 1 [68] CBool]))] in
-  let v := VStruct [VInt (-3); VSlice [VStr [104]; VStr []]; VPtr (Some (VStruct [VBool true]))] in
+  let c := CStruct [] 5 [mkfld 0 1 [65] (CInt 64); mkfld 1 2 [66] (CSliceLen CString);
+                         mkfld 2 3 [67] (CPtr (CStruct [] 1 [mkfld 0 1 [68] CBool]));
+                         mkfld 3 4 [69] (CMap CString (CPtr (CInt 64))); mkfld 4 5 [70] (CMap (CInt 64) CString)] in
+  let v := VStruct [VInt (-3); VSlice [VStr [104]; VStr []]; VPtr (Some (VStruct [VBool true]));
+                    VMap (Some [(VStr [], VPtr None); (VStr [107], VPtr (Some (VInt 0)))]);
+                    VMap (Some [(VInt 0, VStr [120])])] in
   walk_ok c /\ wfv c v /\ wkv c v /\
   match descriptor_of c with
   | Ok d => w_ev (walk d (enc c v []))
   | _ => []
   end
   = [EvStartObj; EvName [65]; EvInt (-3); EvName [66]; EvStartArr; EvStr [104]; EvStr []; EvEndArr;
-     EvName [67]; EvStartObj; EvName [68]; EvBool true; EvEndObj; EvEndObj].
+     EvName [67]; EvStartObj; EvName [68]; EvBool true; EvEndObj;
+     EvName [69]; EvStartObj; EvStr []; EvRaw (ascii "null"); EvStr [107]; EvInt 0; EvEndObj;
+     EvName [70]; EvStartArr; EvStartObj; EvName (ascii "value"); EvStr [120]; EvEndObj; EvEndArr; EvEndObj].
 Proof.
   cbv zeta. split; [|split; [|split]].
-  - cbn. unfold bits_ok. repeat split; try lia; auto; repeat constructor; cbn; intuition discriminate.
-  - cbn. unfold int_range. cbn. repeat split; try lia; auto.
-  - cbn. unfold two63. repeat split; try lia; auto.
+  - cbn. unfold bits_ok. repeat split; try lia; auto 6; try (repeat constructor; cbn; intuition discriminate).
+  - cbn. unfold int_range. cbn.
+    repeat match goal with
+    | |- _ /\ _ => split
+    | |- Forall _ _ => constructor
+    | |- True => exact I
+    | |- _ = _ => reflexivity
+    | |- (_ <= _ < _)%Z => lia
+    | |- (_ <= _)%Z => lia
+    | |- (_ < _)%Z => lia
+    | |- false = true \/ _ => right
+    | |- _ \/ _ => first [left; reflexivity | right; exact I | right; cbn; lia | left; exact I]
+    end.
+  - cbn. unfold two63.
+    repeat match goal with
+    | |- _ /\ _ => split
+    | |- Forall _ _ => constructor
+    | |- True => exact I
+    | |- (_ < _)%N => lia
+    | |- _ => cbn [fst snd]; exact I
+    end.
   - vm_compute. reflexivity.
 Qed.
